@@ -238,7 +238,7 @@ def bounds(vars_):
 
 
 ASSUME = ["A3 CPython semantics as encoded by pyvc.interp",
-          "sum lemma: every sum of N values of a type lies in [N*min, N*max] and is a multiple of the type's step (and the interval ends are attained)"]
+          "sum lemma: every sum of N values of a type lies in [N*min, N*max] and is a multiple of the type's step (and the interval ends are attained) - proved in lean/Lemmas.lean, re-checked by the thorough tier"]
 
 
 def cases(tier):
